@@ -54,7 +54,7 @@ contract(
     props=["C01", "C02", "C03"])
 contract(
     id="request.parse.invalid", func=LD + "._parse_tag_request", call="d._parse_tag_request(tag, 'r')",
-    bind={"tag": ["'nope'", "'u.nope'", "'d.x.y'", "''", "'d{x}'", "'arr[1'", "'Program:Main.q'", "'u.x.y.z'", "'{3}'", "'d{'"]},
+    bind={"tag": ["'nope'", "'u.nope'", "'d.x.y'", "''", "'d{x}'", "'Program:Main.q'", "'u.x.y.z'", "'{3}'", "'d{'"]},
     setup=DB, ensures=["False"], raises_only=["pycomm3.exceptions.RequestError"], props=["C03"])
 
 # ---- value encoding for writes
